@@ -247,3 +247,16 @@ def _lift_spec_calls(node, specfuns):
         elif isinstance(value, ast.AST):
             setattr(node2, field, lf.visit(value))
     return node2, lf.binds
+
+
+def eval_nested(ex, st, src: str, names: dict) -> Val:
+    """evaluate a specification expression from inside a spec function (macro-like spec definitions)"""
+    outer = ex.spec
+    ctx = SpecCtx(ex, old=outer.old if outer is not None else st, cur=st, names=names)
+    out = ctx._run(lambda s2: ctx.ev(parse_spec(src), s2), st)
+    if outer is not None:
+        outer.lemmas.extend(ctx.lemmas)
+    else:
+        for lm in ctx.lemmas:
+            st.assume(lm)
+    return out
